@@ -36,7 +36,9 @@ Pop(F) == SubSeq(F, 1, Len(F) - 1)
 SetTop(F, fr) == [F EXCEPT ![Len(F)] = fr]
 
 (* ---------------- machine state helpers ------------------------------------------------------ *)
-Ev(M, e) == [M EXCEPT !.evs = Append(@, e)]
+\* every event is appended to the log; the virtual clock (what AsyncTimer reads) advances inside task code only:
+\* by the task's number at the start of each segment and by 1 at its end
+Ev(M, e) == [M EXCEPT !.evs = Append(@, e), !.clk = IF e.e = "SegBegin" THEN @ + e.t ELSE IF e.e = "SegEnd" THEN @ + 1 ELSE @]
 TkRec == [st |-> "absent", reg |-> FALSE, by |-> 0, pc |-> 0, lastv |-> Val("N", 0, <<>>), deps |-> <<>>,
           dsched |-> FALSE, cact |-> FALSE, ctxs |-> <<>>, gen |-> "new", recvs |-> <<>>, dcb |-> FALSE, ys |-> EmptyFn]
 
@@ -45,6 +47,7 @@ InitM(Pg) ==
     out |-> EmptyFn, ib |-> EmptyFn, lz |-> EmptyFn,
     bt |-> EmptyFn, cur |-> [k \in 1..Len(Pg.kinds) |-> 0], bcount |-> [k \in 1..Len(Pg.kinds) |-> 0],
     stack |-> <<>>, sbat |-> {}, active |-> 0,
+    clk |-> 0, tm |-> EmptyFn,       \* virtual clock; AsyncTimer contexts: c -> [tot |-> total_time, last |-> _last_start_time]
     cx |-> EmptyFn, sv |-> [v \in 1..(2 * Pg.nvars) |-> SvDefault(Pg, v)], saved |-> EmptyFn,
     running |-> {},         \* tasks whose generator is executing right now (AsyncTask.running)
     reg |-> EmptyFn,        \* DeduplicateDecorator.tasks: (function, key) -> task
@@ -83,10 +86,16 @@ CtxResume(M, c) ==      \* AsyncContext.resume() of a well-behaved context
   LET M1 == Ev(M, [e |-> "Resume", a |-> c]) IN
   IF CtxType(c) \in {"override", "attr"}
   THEN [M1 EXCEPT !.saved = Upd(@, c, M.sv[SvIndex(c)]), !.sv[SvIndex(c)] = P.ctxs[c].val]
+  ELSE IF CtxType(c) = "timer" THEN [M1 EXCEPT !.tm[c].last = M.clk]        \* AsyncTimer.resume
   ELSE M1
 CtxPause(M, c) ==
   LET M1 == Ev(M, [e |-> "Pause", a |-> c]) IN
-  IF CtxType(c) \in {"override", "attr"} THEN [M1 EXCEPT !.sv[SvIndex(c)] = M.saved[c]] ELSE M1
+  IF CtxType(c) \in {"override", "attr"} THEN [M1 EXCEPT !.sv[SvIndex(c)] = M.saved[c]]
+  ELSE IF CtxType(c) = "timer" THEN [M1 EXCEPT !.tm[c].tot = @ + (M.clk - M.tm[c].last)]     \* AsyncTimer.pause
+  ELSE M1
+\* the with-block of c has been left (__exit__ returned): an AsyncTimer's total_time is final now
+CtxLeft(M, c) == IF CtxType(c) = "timer" THEN Ev(M, [e |-> "Timer", a |-> c, b |-> M.tm[c].tot]) ELSE M
+CtxExitPause(M, c) == IF CtxType(c) = "nonasync" THEN M ELSE CtxLeft(CtxPause(M, c), c)
 
 (* leave the with-blocks still open in task t, innermost first, as nested `with` statements do *)
 RECURSIVE UnwindCtxs(_, _)
@@ -96,7 +105,7 @@ UnwindCtxs(M, t) ==
   ELSE LET c == cs[Len(cs)]
            M1 == Ev(M, [e |-> "Exit", a |-> c, t |-> t])
            M2 == [M1 EXCEPT !.tk[t].ctxs = SubSeq(cs, 1, Len(cs) - 1)]
-           M3 == IF CtxType(c) = "nonasync" THEN M2 ELSE CtxPause(M2, c)
+           M3 == CtxExitPause(M2, c)
        IN UnwindCtxs(M3, t)
 
 (* AsyncTask._resume_contexts / _pause_contexts.  Result [M, err]: err = TRUE when a NonAsyncContext
@@ -273,7 +282,7 @@ StartSeg(M, F, t, v, u, isExc) ==
                                        c == cc[Len(cc)]
                                        Ma == Ev(MM, [e |-> "Exit", a |-> c, t |-> t])
                                        Mb == [Ma EXCEPT !.tk[t].ctxs = SubSeq(cc, 1, Len(cc) - 1)]
-                                   IN Leave(IF CtxType(c) = "nonasync" THEN Mb ELSE CtxPause(Mb, c), n - 1)
+                                   IN Leave(CtxExitPause(Mb, c), n - 1)
               M1b == Leave(M1, leave)
               M2 == Ev([M1b EXCEPT !.running = @ \cup {t}], sb)
               M3 == IF k = 1 THEN M2
@@ -293,7 +302,8 @@ RunOps(M, F, t, k, i) ==
     CASE o.o = "enter" ->
            LET c == o.a
                M1 == Ev(M, [e |-> "Enter", a |-> c, t |-> t])
-               M2 == [M1 EXCEPT !.tk[t].ctxs = Append(@, c), !.cx = Upd(@, c, k)]      \* cx[c]: the segment in which c was entered
+               M2 == [M1 EXCEPT !.tk[t].ctxs = Append(@, c), !.cx = Upd(@, c, k),      \* cx[c]: the segment in which c was entered
+                                !.tm = IF CtxType(c) = "timer" THEN Upd(@, c, [tot |-> 0, last |-> 0]) ELSE @]
                M3 == IF CtxType(c) = "nonasync" THEN M2 ELSE CtxResume(M2, c)
            IN RunOps(M3, F, t, k, i + 1)
       [] o.o = "exit" ->
@@ -302,7 +312,7 @@ RunOps(M, F, t, k, i) ==
            ELSE LET c == cs[Len(cs)]
                     M1 == Ev(M, [e |-> "Exit", a |-> c, t |-> t])
                     M2 == [M1 EXCEPT !.tk[t].ctxs = SubSeq(cs, 1, Len(cs) - 1)]
-                    M3 == IF CtxType(c) = "nonasync" THEN M2 ELSE CtxPause(M2, c)
+                    M3 == CtxExitPause(M2, c)
                 IN RunOps(M3, F, t, k, i + 1)
       [] o.o = "read" ->
            LET x == IF o.a < 100 THEN o.a ELSE P.nvars + (o.a - 100)
